@@ -279,9 +279,15 @@ class Ribosome:
 
         sequence = mrna.sequence
 
-        # Check required variables
+        # Check required variables (names bound by an enclosing {{#each}} block --
+        # item/index/first/last and the keys of dict items -- are not required
+        # from the context)
+        outside_loops = self._strip_loop_bound(sequence, context)
         for var_name in mrna.get_required_variables():
             if var_name not in context:
+                placeholder = f"{{{{{var_name}}}}}"
+                if placeholder in sequence and placeholder not in outside_loops:
+                    continue
                 msg = f"Missing required variable: {var_name}"
                 if self.strict:
                     self._errors_count += 1
@@ -501,6 +507,24 @@ class Ribosome:
         result = re.sub(pattern, replace_loop, result, flags=re.DOTALL)
 
         return result
+
+    def _strip_loop_bound(self, sequence: str, context: dict[str, Any]) -> str:
+        """Drop from every {{#each}} body the placeholders that the loop itself binds."""
+        def strip(match: re.Match) -> str:
+            bound = {'item', 'index', 'first', 'last'}
+            items = context.get(match.group(1), [])
+            if isinstance(items, (list, tuple)):
+                for item in items:
+                    if isinstance(item, dict):
+                        bound.update(item)
+            body = match.group(2)
+            for name in bound:
+                body = body.replace(f"{{{{{name}}}}}", "")
+            return body
+
+        return re.sub(
+            r'\{\{#each\s+(\w+)\}\}(.*?)\{\{/each\}\}', strip, sequence, flags=re.DOTALL
+        )
 
     def _process_includes(self, sequence: str, context: dict[str, Any]) -> str:
         """
